@@ -37,7 +37,7 @@ def jobs(tier):
                            cfg=dict(n=8, r=2, guard=None, bound=(1 << 30)), tier=tier, weight=2))
     for e in CAT.build(4, "quick"):
         if e.name in ("assert_lt_ss", "assert_eq_ss", "assert_positive", "assert_range_cc", "assert_nonzero", "assert_ge_sc3"):
-            for pre in (["false_region"], ["aborted_region"]):
+            for pre in (["false_region"], ["aborted_region"], ["self_first"]):
                 js.append(dict(name="%s/n4/after-%s" % (e.name, pre[0]), entry=e.name, backend="snarkjs",
                                cfg=dict(n=4, r=2, guard=None, bound=(1 << 64), prelude=pre), tier=tier, weight=2))
     return js
